@@ -43,11 +43,23 @@ AnalyseCase(ev) ==
       rect == Rectilinear(In)
       \* transformed copies (C13) are judged through their base case; for coordinates beyond 128 the crossing-point products of
       \* Geom!GP exceed TLC's integers: there the harness's certificate (the same conservative test in 128-bit arithmetic) is trusted
-      gp == IF "nogp" \in DOMAIN ev THEN FALSE ELSE IF "gpcert" \in DOMAIN ev THEN ev.gpcert = 1 ELSE GP(In, 3)
+      \* "extra": boxes <<lx, ly, hx, hy>> (lattice units, rounded outward) around small additional subject triangles that exist only in the
+      \* embedded input (their vertices are placed a few UNITS above / below the y of an edge crossing, i.e. off the lattice).  They are
+      \* admissible iff they lie at least 3 lattice units to the right of everything else and of one another; then they change no winding
+      \* at any sample point (which must lie left of them) and the input stays in general position.
+      X == IF "extra" \in DOMAIN ev THEN ev.extra ELSE <<>>
+      bb0 == BBox(In)
+      xok == \A i \in 1..Len(X) : /\ X[i][1] >= bb0[3] + 3 /\ X[i][3] > X[i][1] /\ X[i][4] > X[i][2]
+                                   /\ (\A j \in 1..Len(X) : (i = j) \/ (X[j][1] >= X[i][3] + 3) \/ (X[i][1] >= X[j][3] + 3))
+                                   /\ (\A k \in 1..Len(ev.pts) : ev.pts[k][1] <= ps * (X[i][1] - 1))
+      gp == xok /\ (IF "nogp" \in DOMAIN ev THEN FALSE ELSE IF "gpcert" \in DOMAIN ev THEN ev.gpcert = 1 ELSE GP(In, 3))
       pts == ev.pts
       bb == BBox(In)
       cells == IF ps = 2 /\ rect THEN {<<2 * i + 1, 2 * j + 1>> : i \in bb[1]..(bb[3] - 1), j \in bb[2]..(bb[4] - 1)} ELSE {}   \* only the cell-exact (C02) clauses need them
-  IN [ subj |-> ev.subj, clip |-> ev.clip, emb |-> ev.emb, ps |-> ps, pts |-> pts, gp |-> gp, rect |-> rect, bb |-> bb,
+  IN [ subj |-> ev.subj, clip |-> ev.clip, emb |-> ev.emb, ps |-> ps, pts |-> pts, gp |-> gp, rect |-> rect /\ X = <<>>,
+       bb |-> IF X = <<>> THEN bb ELSE <<bb[1], Min2(bb[2], CHOOSE v \in {X[i][2] : i \in 1..Len(X)} : \A i \in 1..Len(X) : v <= X[i][2]),
+                                         CHOOSE v \in {X[i][3] : i \in 1..Len(X)} : \A i \in 1..Len(X) : v >= X[i][3],
+                                         Max2(bb[4], CHOOSE v \in {X[i][4] : i \in 1..Len(X)} : \A i \in 1..Len(X) : v >= X[i][4])>>,
        ein |-> AllEdges(In), xs |-> XsOf(In), ys |-> YsOf(In),
        ws |-> [i \in 1..Len(pts) |-> Wind(ES, pts[i])],
        wc |-> [i \in 1..Len(pts) |-> Wind(EC, pts[i])],
